@@ -90,6 +90,11 @@ fn render_depth_sort_orders_by_key() {
 // Tried and dropped: render() itself on a tiny scene (one concrete triangle wholly inside the frustum, a counting target, symbolic
 // vertex order / cull mode / mirrored viewport, no-std build so that Stats has no timer) to decide the cull arms and the stats
 // bookkeeping: 25 min and 7.8 GB without a verdict (the Vec-based vertex/triangle/clip buffers again). The cull arms stay [U] (L4).
+// Tried again with NOTHING symbolic (last session): render() of one concrete triangle through an 8x8 viewport into a counting
+// target, one harness per scene (wholly off-screen: statistics of a call in which nothing survives clipping; back/front/no
+// culling x both vertex orders; back-face culling under a y-mirrored viewport), no-std build: 40 min and 9.5 GB each without a
+// verdict (CBMC does not propagate the concrete vertex data through the heap-allocated Vecs, so it still explores the clip loops).
+// Seeds C07b and C07c stay missed/undecided.
 
 // @ob props=C06,C02 tier=quick kind=B cfg=core-std timeout=1800
 // @fn depth_sort
